@@ -63,7 +63,11 @@ def main():
         r = subprocess.run([os.path.join(ROOT, "check"), pid, a.tier], env=env, capture_output=True, text=True)
         cov = coverage.Coverage(data_file=os.path.join(d, "cov"), config_file=False)
         cov.combine([d], keep=False)
+        cov.save()
         data = cov.get_data()
+        keep_dir = os.path.join("/var/tmp", "reach_union")
+        os.makedirs(keep_dir, exist_ok=True)
+        shutil.copy(os.path.join(d, "cov"), os.path.join(keep_dir, "cov." + pid))
         rows = []
         nf = nr = 0
         files = list(p["anchors"]["files"])
@@ -123,7 +127,26 @@ def main():
         summary[pid] = (nf, nr, r.returncode)
         print(pid, "exit", r.returncode, "functions", nf, "reached", nr, "| named", len(named), "not reached:", [n["name"] for n in named if not n["reached"]], flush=True)
     write_md(a.out)
+    write_lines(a.out)
     return 0
+
+
+def write_lines(out):
+    """Line-level union over all checks: `coverage report -m` for the anchor files -> reach/LINES.txt."""
+    import coverage
+    keep_dir = os.path.join("/var/tmp", "reach_union")
+    if not os.path.isdir(keep_dir):
+        return
+    for f in os.listdir(keep_dir):
+        if f == "cov":
+            os.remove(os.path.join(keep_dir, f))
+    cov = coverage.Coverage(data_file=os.path.join(keep_dir, "cov"), config_file=False)
+    cov.combine([keep_dir], keep=True)
+    cov.save()
+    anchor_files = sorted({os.path.join(REPO, f) for l in open(os.path.join(ROOT, "properties.jsonl")) for f in json.loads(l)["anchors"]["files"]})
+    with open(os.path.join(out, "LINES.txt"), "w") as fh:
+        fh.write("Union over the quick tier of all twenty checks: lines of the anchor files that no check executed\n\n")
+        cov.report(morfs=[f for f in anchor_files if os.path.exists(f)], show_missing=True, file=fh, ignore_errors=True)
 
 
 def write_md(out):
